@@ -27,7 +27,7 @@ def find_root(d, func, guess=1.0, **kwargs):
     res : Obs
         `Obs` valued root of the function.
     '''
-    d_val = np.vectorize(lambda x: x.value)(np.array(d))
+    d_val = np.vectorize(lambda x: x.value, otypes=[np.float64])(np.array(d))
 
     root = scipy.optimize.fsolve(func, guess, d_val)
 
